@@ -18,14 +18,15 @@ structure V where
   exits : Nat
   td    : Nat
   ve    : Nat
+  takes : Nat
 deriving DecidableEq, Repr
 
 def K.view (k : K) : V :=
   { items := k.items.length, unf := k.unfinished, blk := k.cores.countP Core.inBlock, dn := k.cores.countP Core.tookDone,
-    puts := k.puts, exits := k.exits, td := k.tdCalls, ve := k.valueErrors }
+    puts := k.puts, exits := k.exits, td := k.tdCalls, ve := k.valueErrors, takes := k.takes }
 
 def V.ok (v : V) : Prop :=
-  v.unf = v.items + v.blk ∧ v.puts = v.exits + v.unf ∧ v.ve = 0 ∧ v.td = v.exits ∧ v.exits = v.dn
+  v.unf = v.items + v.blk ∧ v.puts = v.exits + v.takes + v.unf ∧ v.ve = 0 ∧ v.td = v.exits + v.takes ∧ v.exits = v.dn
 
 /-! ### list lemmas -/
 
@@ -104,6 +105,7 @@ inductive KStep : K → K → Prop
   | abort (k : K) (c : Nat) (x : Core) : k.cores[c]? = some x → preBlock x.phase = true → KStep k (k.abort c)
   | exit (k : K) (c : Nat) (x : Core) (e : Exit) : k.cores[c]? = some x → isInBlock x.phase = true → KStep k (k.exit c e)
   | stepJ (k : K) (j : Nat) : KStep k (k.stepJoiner j)
+  | handTake (k : K) : KStep k k.handTake
 
 /-! ### counting and marks -/
 
@@ -270,9 +272,9 @@ theorem K.view_exit (k : K) (c : Nat) (e : Exit) (hpos : 0 < k.unfinished) :
                                       dn := (k.exit c e).cores.countP Core.tookDone } := by
   have hv := K.view_taskDone ({ k with exits := k.exits + 1 } : K) hpos
   simp only [K.view, V.mk.injEq] at hv
-  obtain ⟨v1, v2, v3, v4, v5, v6, v7, v8⟩ := hv
+  obtain ⟨v1, v2, v3, v4, v5, v6, v7, v8, v9⟩ := hv
   simp only [K.view, V.mk.injEq, K.exit, K.setPhase, K.addMark]
-  exact ⟨v1, v2, trivial, trivial, v5, v6, v7, v8⟩
+  exact ⟨v1, v2, trivial, trivial, v5, v6, v7, v8, v9⟩
 
 theorem K.inv_exit (k : K) (c : Nat) (x : Core) (e : Exit) (h : k.cores[c]? = some x) (hx : isInBlock x.phase = true)
     (hi : k.Inv) : (k.exit c e).Inv := by
@@ -300,6 +302,39 @@ theorem K.inv_exit (k : K) (c : Nat) (x : Core) (e : Exit) (h : k.cores[c]? = so
       simp [CoreOK, Core.tookDone, tookDone, this]
   · have := K.JOK_taskDone ({ k with exits := k.exits + 1 } : K) hpos ⟨hj.fin, hj.wait, hj.woken, hj.fresh, hj.bound⟩
     exact ⟨this.fin, this.wait, this.woken, this.fresh, this.bound⟩
+
+/-- `get_nowait()` on an empty queue changes nothing; otherwise the head is popped and marked by one `task_done()` -/
+theorem K.handTake_cases (k : K) :
+    (k.items = [] ∧ k.handTake = k) ∨
+    ∃ x rest, k.items = x :: rest ∧ k.handTake = ({ k with items := rest, takes := k.takes + 1 } : K).taskDone := by
+  unfold K.handTake
+  cases h : k.items with
+  | nil => exact .inl ⟨rfl, rfl⟩
+  | cons x rest => exact .inr ⟨x, rest, rfl, rfl⟩
+
+/-- a hand mark touches no consumer -/
+theorem K.cores_handTake (k : K) : k.handTake.cores = k.cores := by
+  rcases K.handTake_cases k with ⟨_, e⟩ | ⟨x, rest, _, e⟩ <;> rw [e]
+  rw [K.cores_taskDone]
+
+/-- an item in the queue is unfinished work -/
+theorem K.Inv.pos_of_items {k : K} (hi : k.Inv) (x : Nat) (rest : List Nat) (h : k.items = x :: rest) : 0 < k.unfinished := by
+  obtain ⟨a, _, _, _, _⟩ := hi.cnt
+  simp only [K.view, h, List.length_cons] at a
+  omega
+
+theorem K.inv_handTake (k : K) (hi : k.Inv) : k.handTake.Inv := by
+  rcases K.handTake_cases k with ⟨_, e⟩ | ⟨x, rest, hit, e⟩ <;> rw [e]
+  · exact hi
+  · have hpos : 0 < ({ k with items := rest, takes := k.takes + 1 } : K).unfinished := hi.pos_of_items x rest hit
+    obtain ⟨⟨a, b, c', d, e'⟩, hc, hj⟩ := hi
+    refine ⟨?_, ?_, ?_⟩
+    · rw [K.view_taskDone _ hpos]
+      simp only [K.view, V.ok, hit, List.length_cons] at a b c' d e' hpos ⊢
+      omega
+    · rw [K.cores_taskDone]; exact hc
+    · exact K.JOK_taskDone _ hpos ⟨hj.fin, hj.wait, hj.woken, hj.fresh, hj.bound⟩
+
 theorem K.view_stepJoiner (k : K) (j : Nat) : (k.stepJoiner j).view = k.view ∧ (k.stepJoiner j).cores = k.cores := by
   unfold K.stepJoiner K.joinStart K.joinWake K.modJ
   repeat' (first | split | exact ⟨rfl, rfl⟩)
@@ -382,5 +417,6 @@ theorem KStep.inv {k k' : K} (h : KStep k k') (hi : k.Inv) : k'.Inv := by
   | abort c x h hx => exact K.inv_abort k c x h hx hi
   | exit c x e h hx => exact K.inv_exit k c x e h hx hi
   | stepJ j => exact K.inv_stepJoiner k j hi
+  | handTake => exact K.inv_handTake k hi
 
 end Taskpool.QueueM
